@@ -269,12 +269,9 @@ def _is_opaque(v):
 
 # finding classes with a known root cause are keyed by that call site, whichever API wrote the file
 ROOT = {
-    "np.bool_->str": "NessaiJSONEncoder.default:np.bool_->str",
     "longdouble-rounded": "NessaiJSONEncoder.default:longdouble-rounded",
     "structured-array-field-names": "NessaiJSONEncoder.default:structured-array-field-names",
     "empty-dict-dropped": "add_dict_to_hdf5_file:empty-dict-dropped",
-    "slash-in-key": "add_dict_to_hdf5_file:slash-in-key",
-    "sentinel-string": "encode_for_hdf5:sentinel-string",
     "none-inside-list": "encode_for_hdf5:none-inside-list",
     "ragged-list": "save_dict_to_hdf5:ragged-list",
 }
@@ -289,15 +286,13 @@ def has_slash_key(v):
 class Mismatch:
     """collects (key, what) pairs: key = stable finding class, what = path + observed vs required"""
 
-    def __init__(self, site, slash=False):
-        self.site, self.items, self.slash = site, [], slash
+    def __init__(self, site):
+        self.site, self.items = site, []
 
     def add(self, cls, path, what):
-        if cls == "structured-array-field-names" and list(path) in (["posterior_samples"], ["initial_posterior_samples"]) \
-                and path == ["posterior_samples"] and self.site.startswith("FlowSampler.save_results"):
+        if cls == "structured-array-field-names" and path == ["posterior_samples"] \
+                and self.site.startswith("FlowSampler.save_results"):
             cls = "posterior_samples-field-names"   # save_results converts these with live_points_to_dict
-        if self.slash and cls in ("value-mismatch", "raised", "empty-dict-dropped"):
-            cls = "slash-in-key"   # '/' in a key re-nests/merges groups: every structural difference stems from it
         key = ROOT.get(cls) or f"{self.site}:{cls}"
         self.items.append((key, f"at {'/'.join(path) or '<root>'}: {what}"))
 
@@ -320,12 +315,13 @@ def same_json(v, r, path, mm):
     elif v is None:
         if r is not None:
             mm.add("value-mismatch", path, f"None read back as {_short(r)}")
+    elif isinstance(v, np.bool_):
+        # not one of the value types the property quantifies over (numpy integer/float scalars): no demand here;
+        # what the code does with it (str(obj)) is pinned by the model correspondence and a `_partial` theorem
+        return
     elif _is_bool(v):
-        if isinstance(r, bool) and r == bool(v):
-            return
-        if isinstance(v, np.bool_) and isinstance(r, str):
-            return mm.add("np.bool_->str", path, f"np.bool_({bool(v)}) read back as the string {r!r}")
-        mm.add("value-mismatch", path, f"bool {v!r} read back as {_short(r)}")
+        if not (isinstance(r, bool) and r == bool(v)):
+            mm.add("value-mismatch", path, f"bool {v!r} read back as {_short(r)}")
     elif _is_num(v):
         if isinstance(r, bool) or not isinstance(r, (int, float)):
             return mm.add("value-mismatch", path, f"number {v!r} read back as {_short(r)}")
@@ -393,21 +389,17 @@ def same_h5(v, r, path, mm):
             if k not in r:
                 if _hollow(v[k]):
                     mm.add("empty-dict-dropped", path + [str(k)], "empty dict is not in the file (key lost)")
-                elif isinstance(k, str) and "/" in k:
-                    mm.add("slash-in-key", path + [k], f"key {k!r} read back as nested groups {sorted(r)}")
                 else:
                     mm.add("value-mismatch", path + [str(k)], f"key missing, file has {sorted(r)}")
                 continue
             same_h5(v[k], r[k], path + [k], mm)
         extra = [k for k in r if k not in v]
-        if extra and not any(isinstance(k, str) and "/" in k for k in v):
+        if extra:
             mm.add("value-mismatch", path, f"unexpected keys {extra}")
     elif v is None:
         if r is not None:
             mm.add("value-mismatch", path, f"None read back as {_short(r)}")
     elif isinstance(v, str):
-        if r is None and v == SENTINEL:
-            return mm.add("sentinel-string", path, f"the genuine string {v!r} reads back as None")
         if not (isinstance(r, str) and r == str(v)):
             mm.add("value-mismatch", path, f"str {v!r} read back as {_short(r)}")
     elif _is_bool(v):
